@@ -417,6 +417,35 @@ pub fn c03(opts: &Opts, out: &mut Out) {
             out.oracle("C03:cancelling-pair-rejected", !okc, "cancelling-pair k=2", "a batch of two individually invalid members with equal-and-opposite defects (computed from factors observed on earlier runs) was accepted");
         }
     }
+    // an aggregated statement that carries a seed (the constructor refuses the combination; it can only be assembled
+    // through the public fields): whatever such a member's own result is, the batch still yields one result per
+    // member and the other members' masks stay at their positions
+    {
+        let seeded_a = make_valid(n, 1, 2, t, true, 0, &mut rng);
+        let seeded_b = make_valid(n, 1, 2, t, true, 0, &mut rng);
+        let mut agg = make_valid(n, 2, 2, t, false, 0, &mut rng);
+        agg.stmt.seed_nonce = Some(Scalar::from(77u8));
+        agg.proof = Proof::prove_with_rng(&mut agg.inst.transcript(), &agg.stmt, &agg.inst.witness(), &mut rng).expect("aggregated seeded statement proves");
+        for order in [vec![0usize, 1, 2], vec![1, 0, 2], vec![0, 2, 1], vec![1]] {
+            let pick = |i: usize| match i { 0 => &seeded_a, 1 => &agg, _ => &seeded_b };
+            let members: Vec<&Tmpl> = order.iter().map(|i| pick(*i)).collect();
+            for a in [VerifyAction::RecoverAndVerify, VerifyAction::RecoverOnly, VerifyAction::VerifyOnly] {
+                let o = run_batch(&members, members.len(), members.len(), a);
+                let key = format!("aggregated seeded member (assembled by hand) order={:?} action={}", order, action_name(a));
+                out.oracle("C03:no-panic", o.masks.len() != 1_000_000, &key, "verify_batch panicked");
+                out.oracle("C03:batch-verdict", o.ok, &key, "a batch of valid proofs was refused");
+                if o.ok {
+                    out.oracle("C03:result-length", o.masks.len() == members.len(), &key, &format!("len={} k={}", o.masks.len(), members.len()));
+                    let aligned = order.iter().enumerate().all(|(pos, i)| *i == 1 || {
+                        let expect = if a != VerifyAction::VerifyOnly { Some(pick(*i).inst.blindings[0].clone()) } else { None };
+                        o.masks.get(pos).cloned().flatten() == expect
+                    });
+                    out.oracle("C03:mask-alignment", aligned, &key, "i-th mask does not belong to i-th triple");
+                }
+            }
+        }
+        shapes.insert((3, "aggregated-seeded-by-hand", 0));
+    }
     let nrand = random_batches(opts, out, &mut rng);
     out.stat("random_batches", nrand);
     out.case(format!("templates: {}", valid.iter().map(|t| t.desc()).collect::<Vec<_>>().join(" ")));
